@@ -10,10 +10,28 @@ import hashlib, itertools, json, os
 import checklib
 from checklib import Prop, ROOT, guarded
 
-NAME_CH = "abcxyzABZ0123456789._+"
-VR_CH = "abcxyzABZ0123456789._+~^"
+import string
+NAME_CH = string.ascii_letters + string.digits + "._+"          # the documented name alphabet, complete ('-' joins segments)
+VR_CH = string.ascii_letters + string.digits + "._+~^"          # the documented version/release alphabet, complete
 DIRS = ["", "", "", "/", "./", "Packages/g/", "/mnt/compose/Server/x86_64/os/Packages/", "../rel-1.0/", "a-b/c.d/e:f/",
         "http://host/pub/f-23/", "dir with space/", "//", "x/", "-/", ".rpm/", "1:2-3.4/"]
+# --- boundary pools (docs/GENERATOR_AUDIT.md A1-A9), each value used once per run with default other parts.
+# All of them satisfy the hypotheses of C13_parse_partial (name: no '/', no line feed; version/release: no '-', '/', line feed;
+# version without ':' unless an epoch is given), so "parts recovered" is required of the real code for every one of them.
+NAME_POOL = [NAME_CH, "", " ", "a b", " lead", "trail ", "\t", "\u00a0x", "--", "a--b", "-a", "a-", "a.", ".a", "..", "1", "007", "1-2-3", "0-0",
+             "a:b", "a:1", "1:2", "a@b,c;d=e#f%g[h]i\"j'k\\l", "None", "null", "0", "False", "1.0", "\u00fc-\u00f1", "n\u0663",
+             "\uff11\uff12", "\U0001F600", "x" * 300, "seg-" * 80 + "end", "foo.rpm", "foo.rpm-x", "x86_64", "a-noarch", "a-1.0-1.src",
+             "+", "~", "^", "_", "a+b_c.d", "Pkg-PKG-pkg"]
+VERSION_POOL = [VR_CH, "", " ", "1 2", "\t", "\u00a01", "..", "1..2", "1.", ".1", "1:2", ":", "1::2", "a@b,c;d=e#f%g[h]i\"j'k\\l", "None", "null", "0",
+                "False", "1.0", "\u0663", "\uff11\uff12", "\U0001F600", "v" * 300, "+", "~", "^", "_", "1+2~3^4_5", "20160101", "1.rpm", "rpm"]
+RELEASE_POOL = [VR_CH, "", " ", "1 el7", "\t", "..", "1..el7", "1.", ".1", "a:b", "1:2", "a@b,c;d=e#f%g[h]i\"j'k\\l", "None", "0", "1.0",
+                "\u0663", "\U0001F600", "r" * 300, "+", "~", "^", "_", "1.module+el8.1.0+2~3^4", "1.rpm", "rpm", ".rpm", "1.r", "1.rp"]
+DIR_POOL = ["/abs/path/", "/", "//", "///", "a//b/", "./", "../", "../../x/", "a/../b/", "a/a/a/", "Packages/Packages/",
+            "http://host:8080/pub/f-23/x86_64/os/Packages/g/", "ftp://u:p@h/x/", "file:///mnt/", "dir-1:2/", "a-b-c/", "1:2-3.4/", "x.rpm/",
+            ".rpm/", "glibc-2.17-78.el7.x86_64/", "glibc-0:2.17-78.el7.x86_64.rpm/", " /", "a b/", "\t/", "\u00a0/", "\u00fc/", "\U0001F600/",
+            "d" * 300 + "/", "None/", "-/", ":/", "././/"]
+EPOCH_POOL = ["0", "1", "9", "10", "99", "2147483648", "4294967303", "9007199254740993", "9223372036854775807", "10000000", "100000000"]
+BASE = {"dir": "", "name": "pkg-lib-2", "epoch": None, "version": "1.0", "release": "1.el7", "arch": "x86_64", "rpm": False}
 ENUM_ALPHABET = "a1-.:/"
 INT_LIMIT = 4300
 
@@ -129,7 +147,7 @@ def canon_str(d):
 class C13(Prop):
     id = "C13"
     lean_module = "ProductMD.Properties.C13"
-    quick_budget = 2500
+    quick_budget = 2200
     thorough_budget = 60000
     exhaustive = True
     rule = ("domain stream: names of 1-4 dash-separated segments over [A-Za-z0-9._+] (all-digit segments included), epoch absent / 0 / "
@@ -253,8 +271,33 @@ class C13(Prop):
                 for pre in itertools.product(ENUM_ALPHABET, repeat=n - 5):
                     yield {"op": "enum", "args": {"alphabet": ENUM_ALPHABET, "n": 5, "prefix": "".join(pre)}}
 
+    def pool_cases(self):
+        """every boundary value once, all other parts at their defaults; every architecture with and without .rpm"""
+        def mk(j, **kw):
+            return {"op": "parse", "args": dict(BASE, rpm=bool(j % 2), **kw)}
+        for j, arch in enumerate(self.arches()):
+            yield {"op": "parse", "args": dict(BASE, arch=arch, rpm=False)}
+            yield {"op": "parse", "args": dict(BASE, arch=arch, rpm=True, dir="Packages/p/", epoch="1")}
+        for j, v in enumerate(NAME_POOL):
+            yield mk(j, name=v)
+        for j, v in enumerate(VERSION_POOL):
+            yield mk(j, version=v, epoch="3" if ":" in v else (None if j % 3 else "0"))
+        for j, v in enumerate(RELEASE_POOL):
+            yield mk(j, release=v)
+        for j, v in enumerate(DIR_POOL):
+            yield mk(j, dir=v)
+        for j, v in enumerate(EPOCH_POOL):
+            yield mk(j, epoch=v)
+        # decoupled / look-alike combinations: a directory that is itself an NVRA, a name that ends like one, everything empty
+        yield {"op": "parse", "args": dict(BASE, dir="a-1-1.x86_64/", name="b")}
+        yield {"op": "parse", "args": dict(BASE, name="", version="", release="", arch="src")}
+        yield {"op": "parse", "args": dict(BASE, name="noarch", version="noarch", release="noarch", arch="noarch")}
+        yield {"op": "parse", "args": dict(BASE, name="a", epoch="1", version="1", release="1", arch="src", rpm=True, dir="1:1-1.src.rpm/")}
+
     def cases(self, rng, tier, budget):
         self._tier = tier
+        for c in self.pool_cases():
+            yield c
         # boundary cases first
         arch = self.arches()[0]
         for ep in (None, "0", "9", "10", "4294967296", "9" * INT_LIMIT, "1" + "0" * INT_LIMIT):
@@ -358,6 +401,8 @@ class C13(Prop):
         s = fmt(a) if case["op"] == "parse" else a["s"]
         if len(s) > 1500 and self._tier != "thorough":
             return []          # the list-of-successes model is quadratic in Lean on very long inputs: thorough tier only
+        if len(s) > 200 and self._tier != "thorough":
+            return [{"op": "parse_nvra", "args": {"s": s}}]     # long inputs: one model parse only in the quick tier (the model is cubic)
         return [{"op": "nvra_roundtrip", "args": {"s": s}}, {"op": "check_nevra", "args": {"s": s}}]
 
     def model_result(self, case, outs):
@@ -368,6 +413,8 @@ class C13(Prop):
             return {"strings": n, "parsed": len(o), "digest": hashlib.sha1(json.dumps(o, sort_keys=True).encode()).hexdigest()}
         if case["op"] in ("int", "purity"):
             return o
+        if len(outs) == 1:
+            return {"parse": o}
         return dict(o, check=outs[1])
 
     def compare(self, case, real_out, model_out):
@@ -384,7 +431,7 @@ class C13(Prop):
             return Prop.compare(self, case, real_out, model_out)
         if case["op"] == "purity":
             return Prop.compare(self, case, real_out["first"], model_out)
-        r = dict((k, real_out.get(k)) for k in ("parse", "canon", "reparse", "check"))
+        r = dict((k, real_out.get(k)) for k in ("parse", "canon", "reparse", "check") if k in model_out)
         return Prop.compare(self, case, r, model_out)
 
     # ------------------------------------------------------------------ the property itself, on the real output
